@@ -1,0 +1,10 @@
+//go:build verif
+
+package pos
+
+// VerifValidatorsWithTotal returns a validator set that has no members and whose cached total
+// weight is `total`. It exists only under the `verif` build tag so that Quorum() can be evaluated
+// for every total without building a set of that weight; nothing else may be asked of the result.
+func VerifValidatorsWithTotal(total Weight) *Validators {
+	return &Validators{cache: cache{totalWeight: total}}
+}
